@@ -22,6 +22,9 @@ ASSUMPTIONS = [
     "model replay and oracle cover the ordinary products), a constant hashed PythonNode dependency; successive builds of one history run under different PYTHONHASHSEEDs",
     "generated projects also pass some dependencies inside one dict / list / tuple argument together with plain Python values (same dependency set), "
     "and place some task modules in sub-directories that carry a pyproject.toml without a pytask section",
+    "generated projects also contain hashed Python values built from several input files read at import (tuple / list / positions [0][1],[1][0] of one "
+    "container) with edits that exchange the files' contents (equal digit counts: the separator-less join of finding F3 is replayed as its own witness), "
+    "an untracked fail-flag file that makes a body raise before writing, and a stream of projects passing a value through a hashed in-memory node",
 ]
 EDITS = ["write", "write", "revert", "rewrite_same", "touch", "delete_input", "bump", "revert_module", "tamper", "delete_product",
          "rewire", "add_task", "remove_task", "flag", "flag", "swap", "swap"]
